@@ -56,11 +56,9 @@ theorem stepLine_ok (p : Payment) (st st' : LoopState) (l : PaymentLine) (h : st
             subst h
             rcases st.total with _ | x <;> simp [hc, ht]
           · rw [ht] at h
-            by_cases hp : acc.mergePanics t = true
-            · simp [hp, bind, Except.bind, throw, throwThe, MonadExceptOf.throw] at h
-            · simp only [hp, Bool.false_eq_true, if_false, bind, Except.bind, pure, Except.pure, Except.ok.injEq] at h
-              subst h
-              rcases st.total with _ | x <;> simp [hc, ht]
+            simp only [bind, Except.bind, pure, Except.pure, Except.ok.injEq] at h
+            subst h
+            rcases st.total with _ | x <;> simp [hc, ht]
       · simp [hv, bind, Except.bind, throw, throwThe, MonadExceptOf.throw] at h
 
 theorem runLines_ok (p : Payment) (ls : List PaymentLine) (st st' : LoopState) (h : runLines p ls st = .ok st') :
@@ -175,5 +173,57 @@ theorem forall2_exp (cur : String) (e : ℕ) (rates : List ExchangeRate) (ls : L
     · obtain ⟨d, c, _, _, e⟩ := line_total _ _ _ _ _ hl
       rw [e]
     · exact ih lt hlt
+
+/-! ### when `Payment.calculate` is defined, and what it does not look at -/
+
+/-- a line the loop of `Payment.calculate` accepts: its amounts can be converted
+    and the currency of its document (if any) is defined -/
+def lineOK (p : Payment) (l : PaymentLine) : Prop :=
+  (∃ lt, l.calculate p.currency p.curExp p.rates = .ok lt) ∧ ∀ dr, l.document = some dr → dr.docValid = true
+
+theorem stepLine_defined (p : Payment) (st : LoopState) (l : PaymentLine) :
+    (∃ st', stepLine p st l = .ok st') ↔ lineOK p l := by
+  unfold stepLine lineOK
+  cases hl : l.calculate p.currency p.curExp p.rates with
+  | error e => simp [bind, Except.bind]
+  | ok lt =>
+    rcases hd : l.document with _ | dr
+    · simp [bind, Except.bind, pure, Except.pure]
+    · by_cases hv : dr.docValid = true
+      · rcases hc : dr.calculated p.roundingCurrency with _ | t
+        · simp [hv, hc, bind, Except.bind, pure, Except.pure]
+        · rcases ht : st.tt with _ | acc <;> simp [hv, hc, bind, Except.bind, pure, Except.pure]
+      · simp [hv, bind, Except.bind, throw, throwThe, MonadExceptOf.throw]
+
+theorem runLines_defined (p : Payment) (ls : List PaymentLine) (st : LoopState) :
+    (∃ st', runLines p ls st = .ok st') ↔ ∀ l ∈ ls, lineOK p l := by
+  induction ls generalizing st with
+  | nil => simp [runLines]
+  | cons l ls ih =>
+    unfold runLines
+    cases hs : stepLine p st l with
+    | error e =>
+      have hn : ¬ lineOK p l := fun h => by
+        obtain ⟨st', h'⟩ := (stepLine_defined p st l).mpr h
+        rw [hs] at h'; cases h'
+      simp [hn]
+    | ok st1 =>
+      have hl : lineOK p l := (stepLine_defined p st l).mp ⟨st1, hs⟩
+      simp only [List.mem_cons, forall_eq_or_imp, hl, true_and]
+      exact ih st1
+
+theorem stepLine_total_irrelevant (p : Payment) (a : Amount) (st : LoopState) (l : PaymentLine) :
+    stepLine { p with total := a } st l = stepLine p st l := rfl
+
+theorem runLines_total_irrelevant (p : Payment) (a : Amount) (ls : List PaymentLine) (st : LoopState) :
+    runLines { p with total := a } ls st = runLines p ls st := by
+  induction ls generalizing st with
+  | nil => rfl
+  | cons l ls ih =>
+    unfold runLines
+    rw [stepLine_total_irrelevant]
+    cases stepLine p st l with
+    | error e => rfl
+    | ok st1 => exact ih st1
 
 end GoblVerif.Payment
